@@ -7,7 +7,7 @@ RUNS="${SELFTEST_RUNS:-3000}"
 rc=0
 for P in C05 C06 C10 C16 C17 C18; do
   ARGS=()
-  case "$P" in C10|C16|C17|C18) ARGS=(--sut-release "$SUT" --shim "$SHIM");; esac
+  case "$P" in C05|C10|C16|C17|C18) ARGS=(--sut-release "$SUT" --shim "$SHIM");; esac
   ref=""
   for W in 16 1 5 16; do
     out=$("$SIM" digest "$P" --runs "$RUNS" --workers "$W" "${ARGS[@]}" 2>&1 | tail -1)
